@@ -8,6 +8,8 @@ pub mod c06;
 pub mod c07;
 pub mod c08;
 pub mod c09;
+pub mod c14;
+pub mod c15;
 pub mod c20;
 
 pub fn stack_mb(engine: &str) -> usize {
@@ -28,6 +30,8 @@ pub fn dispatch(engine: &str, cfg: &Cfg) -> i32 {
         "c07" => c07::run(cfg),
         "c08" => c08::run(cfg),
         "c09" => c09::run(cfg),
+        "c14" => c14::run(cfg),
+        "c15" => c15::run(cfg),
         "c20" => c20::run(cfg),
         "cc" => {
             // vh cc FILE [-O] [args-text]: compile a source file the CLI way and optionally run it
